@@ -231,9 +231,15 @@ theorem tar_archive_shape (ms : List Tar.Member) :
 /-- what a logical member with extension records must satisfy to be expressible: the ordinary member fits a plain
     header, it is not itself an extension member, no key contains '=', and the record block fits the size field -/
 structure PaxOK (m : Tar.PMember) : Prop where
-  main : Tar.MemberOK { hdr := m.hdr, body := m.body }
+  /-- the header block actually written (name / link name cut when a `path` / `linkpath` record carries the full value) -/
+  main : Tar.MemberOK { hdr := Tar.mainHdr m, body := m.body }
   logical : Tar.PMemberOK m
+  nameNul : (0 : UInt8) ∉ m.hdr.name
   recordsFit : (Tar.paxBody m.pax).length < 8 ^ 11
+
+theorem mainHdr_of_no_records (m : Tar.PMember) (h : m.pax = []) : Tar.mainHdr m = m.hdr := by
+  unfold Tar.mainHdr
+  simp [h, Tar.lookupB]
 
 /-- **apk / archlinux streams with PAX extension records are well-formed**: archive/tar writes a member that carries
     extension records (apk: APK-TOOLS.checksum.SHA1 on every regular file) as an extension member – header named
@@ -248,10 +254,12 @@ theorem pax_roundtrip (ms : List Tar.PMember) (hm : ∀ m ∈ ms, PaxOK m) : Tar
     have ok := hm m hmm
     unfold Tar.expand at hrm
     split at hrm
-    · simp only [List.mem_singleton] at hrm; subst hrm; exact ok.main
+    · rename_i hnil
+      simp only [List.mem_singleton] at hrm; subst hrm
+      have := ok.main; rwa [mainHdr_of_no_records m hnil] at this
     · simp only [List.mem_cons, List.mem_nil_iff, or_false] at hrm
       rcases hrm with rfl | rfl
-      · exact Tar.xMember_ok _ _ ok.main.hdr.nameNul ok.recordsFit
+      · exact Tar.xMember_ok _ _ ok.nameNul ok.recordsFit
       · exact ok.main
   rw [Tar.read_archive _ hraw]
   exact Tar.collapse_expand ms (fun m h => (hm m h).logical)
@@ -416,10 +424,12 @@ theorem apk_stream_roundtrip (sig : Option (List Tar.PMember)) (control data : L
     have ok := hm m hmm
     unfold Tar.expand at hrm
     split at hrm
-    · simp only [List.mem_singleton] at hrm; subst hrm; exact ok.main
+    · rename_i hnil
+      simp only [List.mem_singleton] at hrm; subst hrm
+      have := ok.main; rwa [mainHdr_of_no_records m hnil] at this
     · simp only [List.mem_cons, List.mem_nil_iff, or_false] at hrm
       rcases hrm with rfl | rfl
-      · exact Tar.xMember_ok _ _ ok.main.hdr.nameNul ok.recordsFit
+      · exact Tar.xMember_ok _ _ ok.nameNul ok.recordsFit
       · exact ok.main
   · exact fun m h => (hm m h).logical
 
